@@ -140,6 +140,7 @@ type Contract struct {
 	Extern    bool
 	Requires  []*Clause
 	Ensures   []*Clause
+	Defines   []*Clause // naming postconditions: assumed by callers, not checked in the body
 	Assigns   []*Desig
 	AssignAll bool
 	HasAssign bool
@@ -211,6 +212,7 @@ type ObjInv struct {
 }
 
 type SpecFile struct {
+	Axioms     []*Clause
 	OnlyWrites map[string][]string
 	ObjInvs   []*ObjInv
 	ASets     []*AssignSet
@@ -392,7 +394,7 @@ func (lx *lexer) fail(f string, a ...interface{}) {
 }
 
 var clauseKeywords = map[string]bool{
-	"requires": true, "ensures": true, "assigns": true, "panics": true, "decreases": true,
+	"requires": true, "ensures": true, "defines": true, "axiom": true, "assigns": true, "panics": true, "decreases": true,
 	"loop": true, "dispatch": true, "like": true, "inline": true, "trusted": true,
 	"func": true, "extern": true, "spec": true, "ghost": true, "lemma": true, "bvtype": true,
 	"invariant": true, "cut": true, "globalfact": true, "frame": true, "objinv": true, "onlywrites": true, "noalloc": true, "at": true, "tags": true,
@@ -480,6 +482,9 @@ func parseSpecFile(file string, lines []string, lineNos []int) (sf *SpecFile, er
 		case "globalfact":
 			lx.next()
 			sf.GFacts = append(sf.GFacts, lx.parseClause())
+		case "axiom":
+			lx.next()
+			sf.Axioms = append(sf.Axioms, lx.parseClause())
 		case "onlywrites":
 			lx.next()
 			raw := lx.restOfLine()
@@ -675,7 +680,7 @@ func (lx *lexer) parseContract() *Contract {
 			lx.fail("unexpected token %q in contract of %s", t.text, c.FuncName)
 		}
 		switch t.text {
-		case "func", "extern", "spec", "ghost", "lemma", "bvtype", "globalfact", "frame", "objinv", "onlywrites":
+		case "func", "extern", "spec", "ghost", "lemma", "bvtype", "globalfact", "frame", "objinv", "onlywrites", "axiom":
 			return c
 		case "requires":
 			lx.next()
@@ -683,6 +688,9 @@ func (lx *lexer) parseContract() *Contract {
 		case "ensures":
 			lx.next()
 			c.Ensures = append(c.Ensures, lx.parseClause())
+		case "defines":
+			lx.next()
+			c.Defines = append(c.Defines, lx.parseClause())
 		case "tags":
 			lx.next()
 			c.Tags = append(c.Tags, lx.parseTags()...)
